@@ -14,3 +14,10 @@ from pyiron_workflow import as_function_node
 def Same(x="d", by="d"):
     x = ("s", x, by)
     return x
+
+
+@as_function_node("o", validate_output_labels=False)
+def TermG(a="d", b="d", c="d", d="d"):
+    """a term node with one channel more than F: the upgrade a replace_child swaps in"""
+    o = ("g", a, b, c, d)
+    return o
